@@ -346,6 +346,9 @@ class Fn:
             for bi, b in enumerate(self.blocks):
                 for si, s in enumerate(b["stmts"]):
                     if s["k"] == "assign":
+                        # `(*p).. = v` writes the pointee, it does not define the pointer p
+                        if s["place"]["proj"] and s["place"]["proj"][0]["k"] == "deref":
+                            continue
                         d[s["place"]["local"]].append((bi, si, s))
                     elif s["k"] == "setdiscr":
                         d[s["place"]["local"]].append((bi, si, s))
